@@ -279,6 +279,8 @@ impl State {
             let nsave = self.nsave;
             self.stack.push(Branch { pc, ix, nsave });
             self.nsave = 0;
+            #[cfg(feature = "verif-hooks")]
+            crate::verif_hooks::vh_push();
             self.trace_stack("push");
             Ok(())
         } else {
@@ -407,6 +409,44 @@ impl State {
     }
 }
 
+/// Wrapper giving the `verif-hooks` module access to the private backtracking state.
+#[cfg(feature = "verif-hooks")]
+pub(crate) struct VhState(State);
+
+#[cfg(feature = "verif-hooks")]
+impl VhState {
+    pub(crate) fn vh_new(n_saves: usize, max_stack: usize) -> VhState {
+        VhState(State::new(n_saves, max_stack, 0))
+    }
+    pub(crate) fn vh_push(&mut self, pc: usize, ix: usize) -> Result<()> {
+        self.0.push(pc, ix)
+    }
+    pub(crate) fn vh_pop(&mut self) -> (usize, usize) {
+        self.0.pop()
+    }
+    pub(crate) fn vh_save(&mut self, slot: usize, val: usize) {
+        self.0.save(slot, val)
+    }
+    pub(crate) fn vh_get(&self, slot: usize) -> usize {
+        self.0.get(slot)
+    }
+    pub(crate) fn vh_n_slots(&self) -> usize {
+        self.0.saves.len()
+    }
+    pub(crate) fn vh_stack_push(&mut self, val: usize) {
+        self.0.stack_push(val)
+    }
+    pub(crate) fn vh_stack_pop(&mut self) -> usize {
+        self.0.stack_pop()
+    }
+    pub(crate) fn vh_backtrack_count(&self) -> usize {
+        self.0.backtrack_count()
+    }
+    pub(crate) fn vh_backtrack_cut(&mut self, count: usize) {
+        self.0.backtrack_cut(count)
+    }
+}
+
 fn codepoint_len_at(s: &str, ix: usize) -> usize {
     codepoint_len(s.as_bytes()[ix])
 }
@@ -448,9 +488,13 @@ pub(crate) fn run(
     let mut backtrack_count = 0;
     let mut pc = 0;
     let mut ix = pos;
+    #[cfg(feature = "verif-hooks")]
+    crate::verif_hooks::vh_begin_run();
     loop {
         // break from this loop to fail, causes stack to pop
         'fail: loop {
+            #[cfg(feature = "verif-hooks")]
+            crate::verif_hooks::vh_insn(state.stack.len());
             #[cfg(feature = "std")]
             if option_flags & OPTION_TRACE != 0 {
                 println!("{}\t{} {:?}", ix, pc, prog.body[pc]);
@@ -719,6 +763,8 @@ pub(crate) fn run(
         }
 
         backtrack_count += 1;
+        #[cfg(feature = "verif-hooks")]
+        crate::verif_hooks::vh_backtrack();
         if backtrack_count > options.backtrack_limit {
             return Err(Error::RuntimeError(RuntimeError::BacktrackLimitExceeded));
         }
